@@ -28,11 +28,12 @@ Proof.
   - rewrite nth_set_nth_neq; auto.
 Qed.
 
+(* no startup window, hence no polled death (DieS), inside the shutdown branch: deliver_np *)
 Lemma deliver_not_reaped evs : forall st j,
-  pst (nth j (workers st) dummy) <> Reaped -> pst (nth j (workers (deliver st evs)) dummy) <> Reaped.
+  pst (nth j (workers st) dummy) <> Reaped -> pst (nth j (workers (deliver_np st evs)) dummy) <> Reaped.
 Proof.
-  induction evs as [|e evs IH]; intros st j H; simpl; auto.
-  apply IH. destruct e; simpl; auto. apply die_not_reaped; auto.
+  unfold deliver_np. induction evs as [|e evs IH]; intros st j H; simpl; auto.
+  destruct e; simpl; auto; apply IH; simpl; auto. apply die_not_reaped; auto.
 Qed.
 
 Lemma shutdown_live_spec idxs : forall st aevs s e o,
@@ -51,7 +52,7 @@ Proof.
   - destruct (HP k (or_introl eq_refl)) as [Hk Hpid].
     apply Nat.eqb_neq in Hpid. rewrite Hpid.
     destruct (pop aevs) as [ev aevs'].
-    destruct (deliver_spec ev st) as (A & _ & _ & _). set (st1 := deliver st ev) in *.
+    destruct (deliver_np_spec ev st) as (A & _ & _ & _). set (st1 := deliver_np st ev) in *.
     destruct (is_alive (nth k (workers st1) dummy)) as [al w'] eqn:EA.
     apply is_alive_spec in EA. destruct EA as (PV & T & F).
     set (st2 := set_workers st1 (set_nth k w' (workers st1))).
